@@ -1,16 +1,17 @@
 // ---- unit prelude: partitioning (C17) — spec vocabulary only -------------------------------------
 
 // what the statement demands of a send that names partition p (ok = the send returned Ok)
-pub open spec fn c17_explicit(o: &Topic, f: &Topic, p: u32, msgs: Seq<Message>, ok: bool) -> bool {
+// (o, f: the partitions map before and after; a send carries at least one message — SendMessages::validate)
+pub open spec fn c17_explicit(o: Map<u32, Partition>, f: Map<u32, Partition>, p: u32, msgs: Seq<Message>, ok: bool) -> bool {
     &&& nothing_stored(o, f) || stored_in(o, f, p, msgs, ok)
-    &&& !o.partitions@.contains_key(p) ==> !ok && nothing_stored(o, f)
+    &&& !o.contains_key(p) ==> nothing_stored(o, f) && (msgs.len() > 0 ==> !ok)
     &&& ok && msgs.len() > 0 ==> stored_in(o, f, p, msgs, true)
 }
 
 // helper shape: a balanced send that stored something stored it where the rotation points, and advanced the cursor
 pub open spec fn c17_rr_send(o: &Topic, f: &Topic, msgs: Seq<Message>, ok: bool) -> bool {
     let step = rr_step(o.current_partition_id.v, o.partitions@.len() as u32);
-    stored_in(o, f, step.0, msgs, ok) && f.current_partition_id.v == step.1
+    stored_in(o.partitions@, f.partitions@, step.0, msgs, ok) && f.current_partition_id.v == step.1
 }
 
 // the ids returned by k consecutive round-robin steps from cursor c over n partitions (no other sender)
